@@ -94,4 +94,7 @@ def run(ctx):
 
 
 # sensitivity pack (thorough tier): each seeded edit must be reported by the named rule instance
-MUTANTS = [{'name': 'commitment-strips-without-zero-test', 'file': 'crates/ordinals/src/rune.rs', 'old': 'while end > 0 && bytes[end - 1] == 0 {', 'new': 'while end > 1 {', 'expect': ('R32.3', 'commitment', 'end is decremented only under')}]
+MUTANTS = [
+  {'name': 'seeded-C32-a', 'patch': 'C32-a/patch.diff', 'expect': ('R32.3', 'Display>::fmt', '')},
+  {'name': 'seeded-C32-b', 'patch': 'C32-b/patch.diff', 'expect': ('R32.2', 'FromStr>::from_str', '')},
+{'name': 'commitment-strips-without-zero-test', 'file': 'crates/ordinals/src/rune.rs', 'old': 'while end > 0 && bytes[end - 1] == 0 {', 'new': 'while end > 1 {', 'expect': ('R32.3', 'commitment', 'end is decremented only under')}]
